@@ -66,6 +66,7 @@ class UnixSocketSession(Session):
         try:
             sock.connect(path)
         except Exception:
+            sock.close()
             raise UnixSocketError("Could not connect to %s" % path)
 
         self._socket = sock
